@@ -56,7 +56,9 @@ def plan(tier, seed):
             for first, var in enumerate(["byte", "word", "safeint",
                                          "companion", "byte+companion",
                                          "word+safeint", "companion",
-                                         "safeint"]):
+                                         "safeint"] + ["status", "statusH",
+                                                       "status+byte",
+                                                       "status"] * 2):
                 shards.append(dict(moving=moving, safe=safe, L=L,
                                    first=first, variant=var))
     return shards
@@ -66,8 +68,21 @@ def make(variant=""):
     ec = SimpleEtherCat("vf")
     out = ("B",) if "byte" in variant else ("H",) if "word" in variant \
         else ("bit",)
-    t, v = ecat.make_terminal(ec, 1, [("bit",), ("bit",)], [out],
-                              use_fmmu=False)
+    if "status" in variant:
+        # digital inputs delivered as bits of a status byte / word: the
+        # switches are linked with ProcessDesc and explicit bit numbers
+        # (open = bit 0, closed = bit 1 of 0x6000:01)
+        from ebpfcat.ebpfcat import ProcessDesc
+        t, v = ecat.make_terminal(
+            ec, 1, [("H",) if "statusH" in variant else ("B",)], [out],
+            use_fmmu=False)
+        t.__class__ = type("StatusTerminal", (type(t),), dict(
+            sw_open=ProcessDesc(0x6000, 1, 0),
+            sw_closed=ProcessDesc(0x6000, 1, 1)))
+        v[SyncManager.IN, 0], v[SyncManager.IN, 1] = t.sw_open, t.sw_closed
+    else:
+        t, v = ecat.make_terminal(ec, 1, [("bit",), ("bit",)], [out],
+                                  use_fmmu=False)
     valve = devices.Valve()
     valve.openSwitch = v[SyncManager.IN, 0]
     valve.closedSwitch = v[SyncManager.IN, 1]
@@ -175,6 +190,12 @@ def run_shard(params):
                             nontriv = True
                         setbit("open", o)
                         setbit("closed", c)
+                        if "status" in variant:
+                            # the other bits of the status byte are somebody
+                            # else's
+                            p_ = pos["open"][0]
+                            data[p_] = (data[p_] & 3) | (
+                                (nhist * 37 + stepno * 11) & 0xfc)
                         err_before = bool(valve.error)
                         if comp:
                             data[cpos] = (data[cpos] & ~3) | 2   # closed
